@@ -453,7 +453,7 @@ def eval_case__(arg):
                 got = "unparsable: %r" % e
             res["ties"].append(("view", core.fmt_case(1402, [[WCODE[w]]] + enc0), None,
                                 dict(idx=idx, writer=w, got=got, rev=rev, sig={v: k for k, v in sig.items()},
-                                     complex=[bool(f.is_complex_multiplexed) for f in db.frames])))
+                                     complex=[bool(f.is_complex_multiplexed) for f in db.frames], orig=[f.name for f in db.frames])))
     if "sym" in alone and not from_reader:
         blocks = parse_sym_blocks(alone["sym"])
         pos = 0
@@ -730,7 +730,7 @@ def run(chk):
             if kind == "sym" and any(n != inf["expect_name"] for n in inf["names"]):
                 bad[kind] += 1
                 chk.tie_break("sym-blocks", inf, "blocks of frame %s" % inf["expect_name"], inf["names"])
-            elif got != exp:
+            elif (sym_canon(got) != sym_canon(exp)) if kind == "sym" else (got != exp):
                 bad[kind] += 1
                 chk.tie_break(kind, inf, got, exp)
     chk.ties["correspondence"] = {"suite": "effect (1401), view from ARXML/FIBEX/KCD bytes (1402), export histories (1403), CanCluster view (1404), SYM blocks (1411), isort (1413)",
@@ -740,7 +740,8 @@ def run(chk):
     shard_cases = []
     for i in pick:
         c, groups = lines[i].split(" ", 1)
-        shard_cases.append((int(c, 16), core.parse_out(groups), expect[i]))
+        # SYM blocks: implementation vs model is judged above modulo block order; here vm_compute is checked against the extracted driver
+        shard_cases.append((int(c, 16), core.parse_out(groups), core.parse_out(out[i]) if meta[i][0] == "sym" else expect[i]))
     mm, log = core.coq_shard(shard_cases, "c14")
     chk.ties["vm_compute_shard"] = {"cases": len(shard_cases), "mismatches": mm}
     if mm is None:
@@ -764,6 +765,13 @@ def decode_matrix(groups):
         fr.append(dict(name=name, tx=tx, rx=rx, sigs=sigs))
         i += 3 + n
     return fr
+
+
+def sym_canon(blocks):
+    """SYM blocks modulo what the property leaves open: the ORDER of the blocks (it demands the same order on every run, not ascending
+    order), hence which block carries the ID=/Type= lines (only: how many do), and the order of the Var= lines inside a block"""
+    blocks = [b for b in blocks if b]
+    return [sorted([b[0], sorted(b[2:])] for b in blocks), sum(b[1] for b in blocks)]
 
 
 def compare_cluster(inf, got):
@@ -791,16 +799,23 @@ def compare_view(inf, got):
     if isinstance(seen, str):
         return ("-", seen)
     m = decode_matrix(got)
+    # The property says nothing about WHAT a writer emits (which fresh name a clashing frame gets, in which order references are listed);
+    # the correspondence therefore compares model and bytes modulo those choices: sets instead of sequences, 'renamed' instead of the new name.
     if w == "arxml":
-        model = [[f["name"], [rev[x] for x in f["tx"] + f["rx"]]] for f, cx in zip(m, inf["complex"]) if not cx]
+        model = [[f["name"], sorted(rev[x] for x in f["tx"] + f["rx"])] for f, cx in zip(m, inf["complex"]) if not cx]
+        seen = [[n_, sorted(p_)] for n_, p_ in seen]
         return None if model == seen else (model, seen)
     if w == "fibex":
-        model = [f["name"] for f in m]
-        return None if model == seen else (model, seen)
+        # which frames keep their name and which get another one - not which one (the model's <name>_<n> is one valid choice)
+        orig = inf["orig"]
+        canon = lambda names: [n_ if n_ == o_ else "<renamed>" for n_, o_ in zip(names, orig)] + ["<length %d>" % len(names)]
+        model = canon([f["name"] for f in m])
+        return None if model == canon(seen) else (model, canon(seen))
     if w == "kcd":
         model = []
         for f in m:
-            model.append([f["name"], [rev[x] for x in f["tx"]], {sigrev[s]: [rev[x] for x in rc] for s, rc in f["sigs"]}])
+            model.append([f["name"], sorted(rev[x] for x in f["tx"]), {sigrev[s]: sorted(rev[x] for x in rc) for s, rc in f["sigs"]}])
+        seen = [[n_, sorted(p_), {k_: sorted(v_) for k_, v_ in sg_.items()}] for n_, p_, sg_ in seen]
         if len(model) != len(seen):
             return (model, seen)
         for a, b in zip(model, seen):
